@@ -213,8 +213,9 @@ FvaNext ==
        [] fva.pc = "zeroed" ->        \* set_linear_coefficients({fwd: 1, rev: -1})
             fva' = [fva EXCEPT !.pc = "set", !.c[fva.k] = 1]
        [] fva.pc = "set" ->           \* slim_optimize under the current coefficients and direction
-            LET val == OptIn(FvaRestricted(M), fva.c, fva.what) IN
-            fva' = [fva EXCEPT !.pc = "solved", !.res[fva.k][IF fva.what = "min" THEN 1 ELSE 2] = val]
+            LET FR == FvaRestricted(M) IN
+            IF FR = {} THEN fva' = [fva EXCEPT !.pc = "infeasible_step"]      \* cannot happen after the safety optimisation
+            ELSE fva' = [fva EXCEPT !.pc = "solved", !.res[fva.k][IF fva.what = "min" THEN 1 ELSE 2] = OptIn(FR, fva.c, fva.what)]
        [] fva.pc = "solved" ->        \* set_linear_coefficients({fwd: 0, rev: 0})
             LET cleared == IF Bug = "fva_no_clear" THEN fva.c ELSE [fva.c EXCEPT ![fva.k] = 0] IN
             IF fva.k < NR(M) THEN fva' = [fva EXCEPT !.pc = "zeroed", !.c = cleared, !.k = fva.k + 1]
@@ -228,6 +229,7 @@ InvFvaProto ==
         LET f == ProtoFrac(M) o == Opt(M) IN
         \A r \in RIdx(M) : fva.res[r] = Range(M, r, LAMBDA v : ObjAtLeast(M, f[1], f[2], o, v))
   /\ fva.pc = "zeroed" => fva.c = ZeroVec(M)
+  /\ fva.pc # "infeasible_step"
 
 \* ------------------------------------------------------------- behaviour
 \* fixed topologies with internal cycles
